@@ -208,8 +208,8 @@ func judge(c *core.Ctx, cs *chlog.Case, jitter int64, corrupt bool) {
 		c.Nontrivial(sb.String())
 		c.Count(kind+"/nontrivial", 1)
 	}
-	if jitter < 2 {
-		c.Sample(replay)
+	if jitter == 0 && chlog.SampledKinds[kind] {
+		c.Sample(chlog.Truncated(replay, 1500))
 	}
 }
 
